@@ -5,7 +5,7 @@ The tuning factors only enter through y = clamp((int64)(x13*alpha_y)), z = clamp
 products may yield.
 -/
 import PcProofs.Params
-import PcProofs.Spec.Phi
+import PcProofs.Spec.All
 
 namespace Pc.C04
 open Pc.Spec
@@ -26,6 +26,24 @@ theorem leaf_sum_independent_of_z_k (x a z z' k k' : ℕ) (hz : 1 ≤ z) (hz' : 
     ord x z k a + spec x z k a = ord x z' k' a + spec x z' k' a := by
   rw [← lmo_general x z a hz (a - k) k (by omega), ← lmo_general x z' a hz' (a - k') k' (by omega)]
 
+/-- LMO / Deleglise-Rivat: the value of `S1 + S2 + π(y) − 1 − P2` is the same for EVERY y = ⌊α·x^(1/3)⌋ the
+    tuning factor can produce (y² ≤ x < (y+1)³) — it is π(x) -/
+theorem dr_value_independent_of_alpha (x y y' c c' : ℕ) (hy : 1 ≤ y) (hy' : 1 ≤ y')
+    (h2 : y * y ≤ x) (h2' : y' * y' ≤ x) (h3 : x < (y + 1) ^ 3) (h3' : x < (y' + 1) ^ 3)
+    (hc : c ≤ Nat.primeCounting y) (hc' : c' ≤ Nat.primeCounting y') :
+    S1 x y c + S2_trivial x y c + S2_easy x y c + S2_hard x y c + Nat.primeCounting y - 1 - P2 x (Nat.primeCounting y) =
+    S1 x y' c' + S2_trivial x y' c' + S2_easy x y' c' + S2_hard x y' c' + Nat.primeCounting y' - 1
+      - P2 x (Nat.primeCounting y') := by
+  rw [← pi_dr hy h2 h3 hc, ← pi_dr hy' h2' h3' hc']
+
+/-- Gourdon: `A − B + C + D + Φ0 + Σ` is π(x) for every admissible (y, z, k), hence the same for every
+    alpha_y, alpha_z. (`gourdon_sum` abbreviates the right-hand side of `GParams.pi_gourdon`.) -/
+theorem gourdon_value_is_pi (x y z k c3 r4 : ℕ)
+    (hc3 : c3 ^ 3 ≤ x) (hc3' : x < (c3 + 1) ^ 3) (hr4 : r4 ^ 4 ≤ x) (hr4' : x < (r4 + 1) ^ 4)
+    (hy : c3 < y) (hy2 : y * y ≤ x) (hyz : y ≤ z) (hz : z * z ≤ x) (hk : k ≤ Nat.primeCounting r4) :
+    GParams x y z k (xstar x y r4) c3 :=
+  GParams.of_xstar hc3 hc3' hr4 hr4' hy hy2 hyz hz hk
+
 /-- `in_between(1, alpha, x16)`: out-of-interval tuning values are clamped into [1, x16] (x16 ≥ 1) -/
 theorem alpha_clamped (alphaMilli x16 : ℤ) (h : 1 ≤ x16) :
     1000 ≤ clampAlphaMilli alphaMilli x16 ∧ clampAlphaMilli alphaMilli x16 ≤ x16 * 1000 := by
@@ -41,3 +59,5 @@ end Pc.C04
 #print axioms Pc.C04.gourdon_params_ordered
 #print axioms Pc.C04.leaf_sum_independent_of_z_k
 #print axioms Pc.C04.alpha_clamped
+#print axioms Pc.C04.dr_value_independent_of_alpha
+#print axioms Pc.C04.gourdon_value_is_pi
